@@ -74,6 +74,8 @@ def program(form, op, a, b):
         return "functie f(x) { x %s %s } f(%s)" % (op, B, A)
     if form == "FFusedLeft":
         return "functie f(x) { %s %s x } f(%s)" % (A, op, B)
+    if form == "FAfterProcedure":
+        return "functie noteer(x) { stel laatste = x }; functie leeg() { }; noteer(1); leeg(); stel a = %s; noteer(a); stel b = %s; leeg(); a %s b" % (A, B, op)
     if form in ("FComputed", "FComputedLeft"):
         # operands that are RESULTS (fresh objects made at run time, texts edited in place), not literals: a value
         # compares by what it is, however it came about
@@ -187,6 +189,13 @@ def run(ctx, log):
     for x, y in fpairs:
         for sym, name in (arith_cmp if not ctx.quick else rng.sample(arith_cmp, 4)):
             cases.append(("FGeneric", sym, name, ("F", x), ("F", y)))
+    for x, y in (rng.sample(fpairs, 40) if ctx.quick else fpairs):
+        for sym, name in (rng.sample(arith_cmp, 3) if ctx.quick else arith_cmp):
+            cases.append(("FAfterProcedure", sym, name, ("F", x), ("F", y)))
+    for x in STRS[:6]:
+        for y in STRS[:6]:
+            cases.append(("FAfterProcedure", "<", "OpLt", ("S", x), ("S", y)))
+            cases.append(("FAfterProcedure", "==", "OpEq", ("S", x), ("S", y)))
     for x, y in near:
         for sym, name in OPS[5:11]:
             cases.append(("FGeneric", sym, name, ("F", x), ("F", y)))
@@ -256,6 +265,11 @@ def run(ctx, log):
     un += [("[1.0 / -0.0, 1.0 / 0.0]", "OK #0=A[#1=Ffff0000000000000,#2=F7ff0000000000000]"), ("[1.0 / 0.0, 1.0 / -0.0, -0.0, 0.0]", "OK #0=A[#1=F7ff0000000000000,#2=Ffff0000000000000,#3=F8000000000000000,#4=F0000000000000000]"),
            ("functie f(x) { [x / -0.0, x / 0.0, -1.5 + x, -2 + 2] } f(1.0)", "OK #0=A[#1=Ffff0000000000000,#2=F7ff0000000000000,#3=Fbfe0000000000000,i0]"), ("[-7, 7, -(7), 0 - 7, -7 + 7]", "OK #0=A[i-7,i7,i-7,i-7,i0]"),
            ("stel a = -2.5; stel b = 2.5; [a, b, -a == b, a + b]", "OK #0=A[#1=Fc004000000000000,#2=F4004000000000000,b1,#3=F0000000000000000]")]
+    for k in (53, 54, 55, 56, 59):
+        v = 2 ** k + 1
+        un.append(("[%d - %d, %d == %d, %d %% 2, %d]" % (v, v - 1, v, v - 1, v, v), "OK #0=A[i1,b0,i1,i%d]" % v))
+        un.append(("functie f(x) { [x - %d, %d - x, x == %d] } f(%d)" % (v, v, v, v - 1), "OK #0=A[i-1,i1,b0]"))
+    un += [("[1152921504606846975, 1152921504606846974 + 1, 9007199254740993 - 9007199254740992]", "OK #0=A[i1152921504606846975,i1152921504606846975,i1]")]
     un.append(("stel a = [1]; a == a", "ERR Type"))
     un.append(("stel f = functie() { 1 }; [f == f, f != f]", "OK #0=A[b1,b0]"))
     uo = vlib.nlh("eval", ["1000 " + vlib.hexs(s) for s, _ in un], tag="c06u")
@@ -304,7 +318,7 @@ def run(ctx, log):
             if py != exp:
                 ctx.violate("unsupported operand types must be a type error", source=srcs[i], observed=o, expected=exp)
             continue
-        form = "FGeneric" if f in ("FLocal", "FComputed", "FComputedLeft") else f
+        form = "FGeneric" if f in ("FLocal", "FComputed", "FComputedLeft", "FAfterProcedure") else f
         items.append("OC %s %s %s %s %s" % (form, name, desc_coq(a), desc_coq(b), term))
         idx.append(i)
     header = "From NL.Corr Require Import CorrOps.\nOpen Scope Z_scope.\nDefinition rtab : list (float * float * float) := [%s]." % rt
